@@ -140,6 +140,14 @@ RULE = (
     "array used for several requests (bytes around the views unchanged), points is atcoords, rejected calls of every kind issued "
     "twice followed by accepted ones on the same objects, radii given as int / np.int64 / np.float64 / 0-d / float32, "
     "strided / negative-stride / read-only / Fortran / integer-dtype coordinates. "
+    "Round 5: point counts 1025 / 4097 and 20001 / 31234 / 65537 (thorough: all five and 2^19+1, 2^19+1+r) with 2..7 atoms: every route "
+    "among themselves, f(all) = concat(f(part1), f(part2)) at cuts off every block boundary, reversed / shuffled / sorted points, "
+    "brute-force scalar reference at the first / last elements and around every chunk / 2^k / 10^k boundary, Hirshfeld on the same "
+    "points; points / atcoords given as longdouble, float32, float16 (exactly representable data: float64 answer on the same values, "
+    "to the narrower precision, result float64, second call equal, arguments unchanged), radii as longdouble / float16, atomic numbers "
+    "of every integer width; ONE object per argument edited in place between calls of the same route (points, atcoords, atnums, "
+    "indices, the radii dictionary between constructions) against fresh copies; two instances differing in one radius / the order / "
+    "dictionary or none / one Hirshfeld element, interleaved, against fresh-process references. "
     "non-trivial = >=4 atoms with >=2 chunks, or a clipped heteronuclear pair, or a nan-radius element, or a point on a nucleus"
 )
 TRUSTED_BASE = [
@@ -965,6 +973,8 @@ def oracle(ctx: Ctx, budget: str):
         ("becke.extreme", lambda: _oracle_extreme(ctx, mod, hmod, budget)),
         ("becke.histories", lambda: _oracle_histories(ctx, mod, hmod, budget)),
         ("becke.arguments", lambda: _oracle_arguments(ctx, mod, hmod, budget)),
+        ("becke.sizes", lambda: _oracle_sizes(ctx, mod, hmod, budget)),
+        ("becke.round5", lambda: _oracle_round5(ctx, mod, hmod, budget)),
         ("becke.high-orders", lambda: _oracle_high_orders(ctx, mod, budget)),
         ("becke.many-atoms", lambda: _oracle_many_atoms(ctx, mod, budget)),
         ("becke.select-probe", lambda: _oracle_select_probe(ctx, mod, budget)),
@@ -2255,3 +2265,285 @@ def _oracle_arguments(ctx: Ctx, mod, hmod, budget):
             for n, arr in keep.items():
                 if not np.array_equal(getattr(U, n), arr, equal_nan=True):
                     getattr(U, n)[...] = arr
+
+
+# ----------------------------------------------------------------------------------------------
+# round 5: sizes past block / chunk boundaries and point order (21, 22); narrow / extended precision inputs (23); the same
+# array object edited in place between calls (25); two instances differing in one hidden dependency vs isolation (26)
+# ----------------------------------------------------------------------------------------------
+BIG_SNIP = """import warnings; warnings.filterwarnings('ignore')
+import math
+import numpy as np
+from grid.becke import BeckeWeights
+from grid.hirshfeld import HirshfeldWeights
+seed, N, M, order = {seed}, {N}, {M}, {order}
+rs = np.random.RandomState(seed)
+at = rs.normal(0, 2.5, (M, 3))
+while M > 1 and min(np.linalg.norm(at[i] - at[j]) for i in range(M) for j in range(i)) < 0.7:
+    at = rs.normal(0, 2.5, (M, 3))
+nums = np.array({nums!r}, dtype=int)
+pts = at[rs.randint(0, M, N)] + rs.normal(0, 2.0, (N, 3))
+pts[-1] = at[0]; pts[N // 2] = at[M - 1]
+tab = np.array({tab!r}, dtype=int)
+b = BeckeWeights(order=order)
+W = np.array([b.generate_weights(pts, at, nums, select=k) for k in range(M)])
+own = np.repeat(np.arange(M), np.diff(tab))
+seg = W[own, np.arange(N)]
+assert np.all(np.abs(W.sum(axis=0) - 1) <= 1e-12), 'weights do not sum to one'
+assert W[0, -1] == 1.0 and W[M - 1, N // 2] == 1.0, 'own-nucleus weight is not one'
+# every route against the per-atom columns
+C = np.array([b.compute_atom_weight(pts, at, nums, k) for k in range(M)])
+assert np.array_equal(C, W), ('compute_atom_weight differs from generate_weights', np.argwhere(C != W)[:3].tolist())
+for name, got in (('__call__', b(pts, at, nums, tab)), ('generate_weights(pt_ind)', b.generate_weights(pts, at, nums, pt_ind=list(tab))),
+                  ('compute_weights(pt_ind)', b.compute_weights(pts, at, nums, pt_ind=list(tab)))):
+    assert got.shape == seg.shape and np.all(np.abs(got - seg) <= 1e-13), (name, 'differs from the per-atom weights at', np.argwhere(~(np.abs(got - seg) <= 1e-13))[:3].tolist())
+# element-wise: the answer on all points is the concatenation of the answers on the parts (cuts off every block boundary)
+for cut in {cuts!r}:
+    for k in (0, M - 1):
+        for fn in (lambda P: b.generate_weights(P, at, nums, select=k), lambda P: b.compute_atom_weight(P, at, nums, k), lambda P: b.compute_weights(P, at, nums, select=k)):
+            parts = np.concatenate([fn(pts[:cut]), fn(pts[cut:])])
+            assert np.array_equal(parts, W[k]), ('f(all) != concat(f(part1), f(part2)) at cut', cut, np.argwhere(parts != W[k])[:3].tolist())
+# the order of the points cannot matter (each point on its own)
+for perm in (np.arange(N)[::-1], rs.permutation(N), np.argsort(pts[:, 0]), np.argsort(-np.linalg.norm(pts - at[0], axis=1))):
+    for k in (0, M - 1):
+        assert np.array_equal(b.generate_weights(pts[perm], at, nums, select=k), W[k][perm]) and np.array_equal(b.compute_atom_weight(pts[perm], at, nums, k), W[k][perm]), 'weights depend on the order of the points'
+# brute force at sampled elements: plain-float Becke scheme, one point at a time
+def eff(z):
+    r = float(b._radii[int(z)])
+    return r if r == r else (float(np.nan_to_num(b._radii[int(z) - 1])) or float(np.nan_to_num(b._radii[int(z) - 2])))
+rad = [eff(z) for z in nums]
+def scalar(p):
+    dist = [math.sqrt(sum((float(a[c]) - float(p[c])) ** 2 for c in range(3))) for a in at]
+    cells = []
+    for A in range(M):
+        prod = 1.0
+        for B in range(M):
+            if B == A: continue
+            dab = math.sqrt(sum((float(at[A][c]) - float(at[B][c])) ** 2 for c in range(3)))
+            mu = (dist[A] - dist[B]) / dab
+            u = (rad[A] - rad[B]) / (rad[A] + rad[B])
+            a = min(max(u / (u * u - 1.0), -0.45), 0.45)
+            f = mu + a * (1.0 - mu * mu)
+            for _ in range(order): f = 1.5 * f - 0.5 * f ** 3
+            prod *= 0.5 * (1.0 - f)
+        cells.append(prod)
+    return [c / sum(cells) for c in cells]
+for j in {sample!r}:
+    assert np.all(np.abs(W[:, j] - np.array(scalar(pts[j]))) <= {tol!r}), ('element', j, 'differs from the scalar reference', W[:, j], scalar(pts[j]))
+# Hirshfeld on the same points
+hn = np.array({hnums!r}, dtype=int)
+H = HirshfeldWeights
+rho = np.array([H.generate_proatom(pts, at[k], hn[k]) for k in range(M)])
+want = (rho / rho.sum(axis=0))[own, np.arange(N)]
+got = H()(pts, at, hn, tab)
+assert got.shape == want.shape and np.all(np.abs(got - want) <= 1e-12 * np.maximum(1, np.abs(want))), ('Hirshfeld call differs from pro-atom shares at', np.argwhere(~(np.abs(got - want) <= 1e-12 * np.maximum(1, np.abs(want))))[:3].tolist())
+cut = {cuts!r}[0]
+for k in (0, M - 1):
+    assert np.array_equal(np.concatenate([H.generate_proatom(pts[:cut], at[k], hn[k]), H.generate_proatom(pts[cut:], at[k], hn[k])]), rho[k]), 'generate_proatom(all) != concat over a split'
+    assert np.array_equal(H.generate_proatom(pts[::-1], at[k], hn[k]), rho[k][::-1]), 'generate_proatom depends on the order of the points'
+"""
+
+
+def _oracle_sizes(ctx: Ctx, mod, hmod, budget):
+    """classes 21 / 22: point counts just above powers of two and {1,2,5}·10^k (never a multiple of either) with few atoms, so
+    that every block / chunk loop has a remainder; routes among themselves, additivity over splits, permutation of the points,
+    brute-force scalar reference at the first / last elements and around every block boundary; Hirshfeld on the same points.
+    Each case is a self-contained script built from a seed (it is its own replay)."""
+    rng = ctx.rng
+    sizes = [1025, 4097, 20001, 31234, 65537]
+    todo = [(rng.choice([1025, 4097]), rng.choice([4, 5, 7])), (rng.choice([20001, 31234, 65537]), rng.choice([3, 4]))]
+    if ctx.thorough or budget == "large":
+        todo += [(n, rng.choice([3, 4, 5])) for n in sizes] + [(2 ** 19 + 1, 2), (2 ** 19 + 1 + rng.randrange(1, 999), 3)]
+    for N, M in todo:
+        seed = rng.randrange(1, 2 ** 31)
+        order = rng.choice([1, 2, 3, 3, 4])
+        nums = [rng.choice([1, 6, 7, 8, 2, 55, 17, 86, 3]) for _ in range(M)]
+        tab = _table(rng, N, M) if rng.random() < 0.7 else [0] + [N // M * (i + 1) + 1 for i in range(M - 1)] + [N]
+        chunk = max(1, (10 * N) // M ** 2)
+        marks = sorted({0, 1, N - 2, N - 1, N // 2} | {j for c in (chunk, 2 * chunk, 512, 1000, 1024, 2048, 4096, 5000, 8192, 10000, 16384, 20000, 32768, 50000, 65536, 2 ** 19)
+                                                         for j in (c - 1, c, c + 1) if 0 <= j < N} | {rng.randrange(N) for _ in range(25)})
+        cuts = [rng.choice([N // 3 + 1, 1023, 1025, N - 1, 1, rng.randrange(1, N)]), rng.randrange(1, N)]
+        src = BIG_SNIP.format(seed=seed, N=N, M=M, order=order, nums=nums, tab=[int(v) for v in tab], cuts=cuts, sample=marks[:90],
+                              tol=1e-11 * 1.5 ** order, hnums=[rng.choice([1, 6, 7, 8]) for _ in range(M)])
+        ctx.count(["sizes", N, M, seed], nontrivial=True, tag=f"oracle:sizes:N={N}")
+        try:
+            exec(compile(src, f"<C06 sizes N={N} M={M}>", "exec"), {"__name__": "__c06_sizes__"})
+        except AssertionError as e:
+            ctx.fail("oracle", "becke.sizes", f"{N} points, {M} atoms (atnums {nums}, order {order}, seed {seed}, indices {tab}): {str(e)[:400]}",
+                     witness=dict(npoints=N, natoms=M, seed=seed, atnums=nums, order=order, indices=tab), snippet=src)
+        except Exception as e:  # noqa: BLE001
+            ctx.fail("oracle", "becke.sizes:raises", f"{N} points, {M} atoms (seed {seed}): raised {type(e).__name__}: {str(e)[:300]}",
+                     witness=dict(npoints=N, natoms=M, seed=seed, atnums=nums, order=order, indices=tab), snippet=src)
+
+
+R5 = """import warnings; warnings.filterwarnings('ignore')
+import json, os, subprocess, sys
+import numpy as np
+import grid
+from grid.becke import BeckeWeights
+from grid.hirshfeld import HirshfeldWeights
+from grid.utils import get_cov_radii
+at = np.array({at!r}, dtype=float).reshape(-1, 3); nums = np.array({nums!r}, dtype=int)
+pts = np.array({pts!r}, dtype=float).reshape(-1, 3); tab = np.array({tab!r}, dtype=int)
+at2 = np.array({at2!r}, dtype=float).reshape(-1, 3); pts2 = np.array({pts2!r}, dtype=float).reshape(-1, 3); nums2 = np.array({nums2!r}, dtype=int); tab2 = np.array({tab2!r}, dtype=int)
+radii = {over!r}; order = {order}; k = {k}; scenario = {scenario!r}; hn = np.array({hnums!r}, dtype=int); hn2 = np.array({hnums2!r}, dtype=int)
+M, N = len(at), len(pts)
+def routes(b, pts=pts, at=at, nums=nums, tab=tab):
+    return [b(pts, at, nums, tab), b.generate_weights(pts, at, nums, pt_ind=list(tab)), b.compute_weights(pts, at, nums, pt_ind=list(tab)),
+            b.compute_atom_weight(pts, at, nums, k), b.generate_weights(pts, at, nums, select=k), b.compute_weights(pts, at, nums, select=k)]
+def dev(x, y):
+    return max([float(np.max(np.abs(np.asarray(a, dtype=float) - np.asarray(b, dtype=float)))) if np.shape(a) == np.shape(b) and np.size(a) else (0.0 if np.shape(a) == np.shape(b) else float('inf')) for a, b in zip(x, y)])
+def same(x, y):
+    return all(np.array_equal(a, b, equal_nan=True) for a, b in zip(x, y))
+new = lambda: BeckeWeights(radii=dict(radii) or None, order=order)
+if scenario == 'precision-inputs':
+    # data exactly representable in the narrow type: the float64 computation on the same values is THE answer
+    q = {q!r}
+    P, A = np.round(pts / q) * q, np.round(at / q) * q
+    assert len(set(map(tuple, A))) == M
+    dmin = min([float(np.linalg.norm(A[i] - A[j])) for i in range(M) for j in range(i)] + [1.0])
+    b = new()
+    ref = routes(b, P, A); href = HirshfeldWeights()(P, A, hn, tab)
+    amp = 1.5 ** max(order, 1) * max(1.0, float(np.max(np.linalg.norm(P[:, None] - A, axis=-1)))) / dmin
+    for dt, eps in ((np.longdouble, 2.0 ** -52), (np.float32, 2.0 ** -23), (np.float16, 2.0 ** -10)):
+        Pn, An = P.astype(dt), A.astype(dt)
+        assert np.all(Pn.astype(float) == P) and np.all(An.astype(float) == A), 'harness: data not representable'
+        for label, PP, AA, tol in (('points', Pn, A, max(1e-13, 64 * 2.0 ** -52 * amp)), ('atcoords', P, An, 64 * eps * amp), ('both', Pn, An, 64 * eps * amp)):    # (longdouble: computed in extended precision, rounded once more)
+            snap = (PP.tobytes(), AA.tobytes())
+            first = routes(b, PP, AA); second = routes(b, PP, AA)
+            assert all(np.asarray(x).dtype == np.float64 for x in first), (dt.__name__, label, 'result is not float64', [np.asarray(x).dtype for x in first])
+            assert dev(first, ref) <= tol, (dt.__name__, label, 'deviates from the float64 answer on the same values by', dev(first, ref), 'allowed', tol)
+            assert same(first, second), (dt.__name__, label, 'a second call with the same argument objects differs from the first')
+            assert snap == (PP.tobytes(), AA.tobytes()), (dt.__name__, label, 'an argument was modified')
+            h1 = HirshfeldWeights()(PP, AA, hn, tab); h2 = HirshfeldWeights()(PP, AA, hn, tab)
+            htol = 1e-12 if label == 'points' else 4096 * eps * amp
+            assert h1.dtype == np.float64 and np.array_equal(h1, h2, equal_nan=True) and np.all(np.abs(h1 - href) <= htol * np.maximum(1, np.abs(href))), (dt.__name__, label, 'Hirshfeld', float(np.max(np.abs(h1 - href))))
+    # radii of extended / reduced precision (exactly representable values); atomic numbers of every integer width
+    vals = {{int(z): v for z, v in zip(sorted(set(int(z) for z in nums)), {vals!r})}}
+    fref = routes(BeckeWeights(radii={{z: float(v) for z, v in vals.items()}}, order=order), P, A)
+    for dt, rtol in ((np.longdouble, max(1e-13, 64 * 2.0 ** -52 * amp)), (np.float16, 16 * 2.0 ** -10 * amp)):      # an all-float16 dictionary: NumPy computes alpha in half precision
+        got = routes(BeckeWeights(radii={{z: dt(v) for z, v in vals.items()}}, order=order), P, A)
+        assert all(np.asarray(x).dtype == np.float64 for x in got) and dev(got, fref) <= rtol, (dt.__name__, 'radii of this type (same values) give different weights', dev(got, fref), 'allowed', rtol)
+    for dt in (np.int8, np.uint8, np.int16, np.int32, np.uint64):
+        assert same(routes(b, P, A, nums.astype(dt)), ref), (dt.__name__, 'atomic numbers of this dtype give different weights')
+        r1 = get_cov_radii(nums.astype(dt)); assert np.array_equal(r1, get_cov_radii(nums), equal_nan=True) and r1.dtype == np.float64
+elif scenario == 'inplace-between-calls':
+    # ONE object per argument, edited in place between the calls; every answer against fresh copies of the current contents
+    b = new(); h = HirshfeldWeights()
+    P, A, Z, T, HZ = pts.copy(), at.copy(), nums.copy(), tab.copy(), hn.copy()
+    L = list(tab)
+    def now():
+        bb = new()
+        p, a, z, t = P.copy(), A.copy(), Z.copy(), T.copy()
+        return [bb(p, a, z, t), bb.generate_weights(p, a, z, pt_ind=list(L)), bb.compute_weights(p, a, z, pt_ind=list(L)), bb.compute_atom_weight(p, a, z, k),
+                bb.generate_weights(p, a, z, select=k), bb.compute_weights(p, a, z, select=k), HirshfeldWeights()(p, a, HZ.copy(), t), get_cov_radii(Z.copy())]
+    fns = [lambda: b(P, A, Z, T), lambda: b.generate_weights(P, A, Z, pt_ind=L), lambda: b.compute_weights(P, A, Z, pt_ind=L), lambda: b.compute_atom_weight(P, A, Z, k),
+           lambda: b.generate_weights(P, A, Z, select=k), lambda: b.compute_weights(P, A, Z, select=k), lambda: h(P, A, HZ, T), lambda: get_cov_radii(Z)]
+    def again():
+        return [f() for f in fns]
+    assert same(again(), now())
+    edits = [('points[:] = other points', lambda: P.__setitem__(slice(None), pts2)), ('points *= 1.5', lambda: P.__imul__(1.5)), ('atcoords[...] = other nuclei', lambda: A.__setitem__(Ellipsis, at2)),
+             ('atcoords += shift', lambda: A.__iadd__(np.array([0.25, -0.5, 0.125]))), ('atnums[:] = other elements', lambda: Z.__setitem__(slice(None), nums2)),
+             ('Hirshfeld atnums[:] = other elements', lambda: HZ.__setitem__(slice(None), hn2)), ('indices[:] = other table', lambda: (T.__setitem__(slice(None), tab2), L.__setitem__(slice(None), [int(v) for v in tab2]))),
+             ('points[0] = a nucleus', lambda: P.__setitem__(0, A[M - 1])), ('atnums[0] = He', lambda: Z.__setitem__(0, 2))]
+    for i in {perm!r}:
+        what, edit = edits[i % len(edits)]
+        j = (i // len(edits)) % len(fns)
+        fns[j]()                                  # this route is the last one that saw the old contents of the very same objects
+        edit()
+        one, want = fns[j](), now()
+        assert np.array_equal(one, want[j], equal_nan=True), ('route ' + str(j) + ' called before and after the in-place edit `' + what + '` of the same argument object does not see the new contents')
+        got = again()
+        assert same(got, want), ('after the in-place edit `' + what + '` of an argument object used before, the answer is not the one for its new contents', [j for j, (x, y) in enumerate(zip(got, want)) if not np.array_equal(x, y, equal_nan=True)])
+    # the radii dictionary: one object, edited between two constructions
+    d = {{int(z): 1.0 + 0.25 * i for i, z in enumerate(sorted(set(int(z) for z in nums)))}}
+    for rep in range(3):
+        b1 = BeckeWeights(radii=d, order=order)
+        assert same(routes(b1), routes(BeckeWeights(radii=dict(d), order=order))), 'a dictionary object used for an earlier construction and edited in place gives the old radii'
+        for z in d: d[z] = d[z] * 1.75 + 0.5 * rep
+elif scenario == 'two-instances':
+    # A and B differ in exactly one hidden dependency; each answer against the one of a process in which the other never existed
+    variants = {variants!r}
+    def make(v):
+        return BeckeWeights(radii={{int(z): r for z, r in v['radii'].items()}} or None, order=v['order'])
+    iso = ("import warnings; warnings.filterwarnings('ignore')\\nimport json, sys\\nimport numpy as np\\nfrom grid.becke import BeckeWeights\\nfrom grid.hirshfeld import HirshfeldWeights\\n"
+           "d = json.loads(sys.stdin.read())\\nat = np.array(d['at']).reshape(-1, 3); pts = np.array(d['pts']).reshape(-1, 3); nums = np.array(d['nums'], dtype=int); tab = np.array(d['tab'], dtype=int); k = d['k']; v = d['v']\\n"
+           "b = BeckeWeights(radii={{int(z): r for z, r in v['radii'].items()}} or None, order=v['order'])\\n"
+           "out = [b(pts, at, nums, tab), b.generate_weights(pts, at, nums, pt_ind=list(tab)), b.compute_weights(pts, at, nums, pt_ind=list(tab)), b.compute_atom_weight(pts, at, nums, k), b.generate_weights(pts, at, nums, select=k), b.compute_weights(pts, at, nums, select=k),"
+           " HirshfeldWeights()(pts, at, np.array(v['hn'], dtype=int), tab)]\\nprint(json.dumps([[float(x).hex() for x in o] for o in out]))\\n")
+    env = dict(os.environ, PYTHONPATH=os.path.dirname(os.path.dirname(os.path.abspath(grid.__file__))))
+    refs = []
+    for v in variants:
+        p = subprocess.run([sys.executable, '-c', iso], input=json.dumps(dict(at=at.reshape(-1).tolist(), pts=pts.reshape(-1).tolist(), nums=[int(z) for z in nums], tab=[int(t) for t in tab], k=k, v=v)),
+                           capture_output=True, text=True, env=env, cwd='/')
+        assert p.returncode == 0, ('isolated reference process failed', p.stderr[-300:])
+        refs.append([np.array([float.fromhex(x) for x in o]) for o in json.loads(p.stdout.strip().splitlines()[-1])])
+    objs = [None, None]; hobjs = [None, None]
+    for i in {perm!r}:
+        j = i % 2
+        if objs[j] is None:
+            objs[j] = make(variants[j]); hobjs[j] = HirshfeldWeights()
+        got = routes(objs[j]) + [hobjs[j](pts, at, np.array(variants[j]['hn'], dtype=int), tab)]
+        assert same(got, refs[j]), ('instance ' + 'AB'[j] + ' (' + json.dumps(variants[j]) + ') answers differently next to the other instance than alone in a fresh process', [n for n, (x, y) in enumerate(zip(got, refs[j])) if not np.array_equal(x, y, equal_nan=True)])
+"""
+
+
+def _oracle_round5(ctx: Ctx, mod, hmod, budget):
+    """classes 23, 25, 26 as self-contained scripts (each is its own replay)"""
+    rng = ctx.rng
+    scenarios = ["precision-inputs", "inplace-between-calls", "two-instances"]
+    U = importlib.import_module("grid.utils")
+    for it in range(15 if budget == "large" else ctx.n(9, 48)):
+        sc = scenarios[it % len(scenarios)]
+        m = rng.choice([2, 3, 4, 5])
+        n = rng.choice([3, 5, 8, 12])
+        mol, mol2 = _molecule(ctx, m=m, n=n), _molecule(ctx, m=m, n=n)
+        for mo in (mol, mol2):          # points near the molecule (exactly representable in half precision after rounding to q), one on a nucleus
+            mo["pts"] = np.array([mo["at"][rng.randrange(m)] + np.array([rng.gauss(0, 2.0) for _ in range(3)]) for _ in range(n)])
+            mo["pts"][rng.randrange(n)] = mo["at"][rng.randrange(m)]
+        q = rng.choice([0.25, 0.125, 0.5])
+        if len(set(map(tuple, np.round(mol["at"] / q) * q))) < m:
+            continue
+        zs = sorted(set(int(z) for z in mol["nums"]))
+        over = {z: rng.uniform(0.4, 4.0) for z in rng.sample(zs, k=rng.randrange(1, len(zs) + 1))} if rng.random() < 0.5 else {}
+        tab, tab2 = _table(rng, n, m), _table(rng, n, m)
+        hn = [rng.choice([1, 6, 7, 8]) for _ in range(m)]
+        hn2 = [rng.choice([1, 6, 7, 8]) for _ in range(m)]
+        # two instances that differ in ONE thing: the order, one radius, a dictionary vs none, one Hirshfeld element
+        base = dict(radii={str(z): rng.uniform(0.5, 3.0) for z in zs}, order=mol["order"], hn=hn)
+        other = json_copy(base)
+        kind = ["radius", "order", "no-dictionary", "hirshfeld-element"][(it // len(scenarios)) % 4]
+        if kind == "order":
+            other["order"] = base["order"] + rng.choice([1, 2])
+        elif kind == "radius":
+            z = str(rng.choice(zs))
+            other["radii"][z] = base["radii"][z] * rng.choice([0.5, 1.7])
+        elif kind == "no-dictionary":
+            other["radii"] = {}
+        else:
+            j = rng.randrange(m)
+            other["hn"][j] = rng.choice([z for z in (1, 6, 7, 8) if z != hn[j]])
+        src = R5.format(at=mol["at"].reshape(-1).tolist(), nums=[int(z) for z in mol["nums"]], pts=mol["pts"].reshape(-1).tolist(), tab=[int(v) for v in tab],
+                        at2=mol2["at"].reshape(-1).tolist(), pts2=mol2["pts"].reshape(-1).tolist(), nums2=[int(z) for z in mol2["nums"]], tab2=[int(v) for v in tab2],
+                        over=over, order=mol["order"], k=rng.randrange(m), scenario=sc, hnums=hn, hnums2=hn2, q=q,
+                        vals=[rng.choice([1, 2, 3, 0.75, 1.5, 2.25, 0.5, 4]) for _ in zs], perm=[rng.randrange(0, 1000) for _ in range(12)], variants=[base, other])
+        ctx.count(["round5", sc, it, kind if sc == "two-instances" else ""], nontrivial=True, tag="round5:" + sc + (":" + kind if sc == "two-instances" else ""))
+        ctx.traces += 1
+        keep = {nm: getattr(U, nm).copy() for nm in ("_bragg", "_cambridge", "_alvarez")}
+        wit = dict(scenario=sc, atnums=mol["nums"], atcoords=mol["at"], points=mol["pts"], indices=tab, radii=over, order=mol["order"])
+        try:
+            exec(compile(src, f"<C06 round5 {sc}>", "exec"), {"__name__": "__c06_round5__"})
+        except AssertionError as e:
+            ctx.fail("oracle", f"becke.round5:{sc}", f"scenario `{sc}`: {str(e)[:400]}", witness=wit, snippet=src)
+        except Exception as e:  # noqa: BLE001
+            ctx.fail("oracle", f"becke.round5:{sc}", f"scenario `{sc}` raised {type(e).__name__}: {str(e)[:300]}", witness=wit, snippet=src)
+        finally:
+            for nm, arr in keep.items():
+                if not np.array_equal(getattr(U, nm), arr, equal_nan=True):
+                    getattr(U, nm)[...] = arr
+
+
+def json_copy(x):
+    import json
+
+    return json.loads(json.dumps(x))
